@@ -529,18 +529,26 @@ Qed.
 Definition KS (r : rstate) (w : world) : Prop :=
   pinv (rsp r) /\ bytes_ok (remaining w) /\ Kc (abs (rsp r)) [] (segs w).
 
-Lemma await_input_KS : forall fuel dest r w x r' w', KS r w ->
-  await_input maxc fuel dest r w = Ok (x, r') w' -> KS r' w'.
+(* one poll of poll_input, whatever its result (Ready or Pending): one iteration of an awaited read, or the single
+   poll of an abandoned read (handler op 11) *)
+Lemma poll_input_KS dest r w p r1 w1 : KS r w ->
+  poll_input maxc (io_fuel w (len (buffer (rsp r)))) dest r w = (p, r1, w1) -> KS r1 w1.
 Proof.
-  induction fuel as [|f IH]; intros dest r w x r' w' (Hinv & Hrem & HK) E; [discriminate E|].
-  cbn [await_input] in E.
-  destruct (poll_input maxc (io_fuel w (len (buffer (rsp r)))) dest r w) as [[p r1] w1] eqn:EP.
+  intros (Hinv & Hrem & HK) EP.
   assert (Hfu : (length (wscript w) + length (remaining w) + 2 <= io_fuel w (len (buffer (rsp r))))%nat)
     by (rewrite io_fuel_remaining; lia).
   destruct (poll_input_reads maxc _ dest r w p r1 w1 Hinv Hrem Hfu EP) as (dl & A & _).
   pose proof (poll_input_K _ dest r w p r1 w1 Hinv Hrem Hfu EP HK) as K1.
-  assert (KS1 : KS r1 w1).
-  { split; [apply (ac_inv _ _ _ _ _ _ _ A)|]. split; [apply (acct_bytes_ok _ _ _ _ _ _ _ A Hrem)|exact K1]. }
+  split; [apply (ac_inv _ _ _ _ _ _ _ A)|]. split; [apply (acct_bytes_ok _ _ _ _ _ _ _ A Hrem)|exact K1].
+Qed.
+
+Lemma await_input_KS : forall fuel dest r w x r' w', KS r w ->
+  await_input maxc fuel dest r w = Ok (x, r') w' -> KS r' w'.
+Proof.
+  induction fuel as [|f IH]; intros dest r w x r' w' HKS E; [discriminate E|].
+  cbn [await_input] in E.
+  destruct (poll_input maxc (io_fuel w (len (buffer (rsp r)))) dest r w) as [[p r1] w1] eqn:EP.
+  pose proof (poll_input_KS dest r w p r1 w1 HKS EP) as KS1.
   destruct p as [y| |].
   - injection E as <- <- <-. exact KS1.
   - unfold on_wake in E. cbn [andb] in E. apply (IH dest r1 (w_bump w1) x r' w' KS1 E).
@@ -601,7 +609,7 @@ Lemma run_handler_KS strict role cur script : script_ok strict role cur script -
   forall f r w st r' w', KS r w -> run_handler maxc f script r w = Ok (st, r') w' -> KS r' w'.
 Proof.
   induction 1 as [cur|cur n rest H IH|cur rest H IH|cur k rest H IH|cur s rest Hacc H IH|cur rest H IH
-                  |cur s n rest H IH|cur s rest H IH|cur d c rest Hd|cur k rest|cur n rest H IH];
+                  |cur s n rest H IH|cur s rest H IH|cur d c rest Hd|cur k rest|cur n rest H IH|cur n rest H IH];
     intros f r w st r' w' HSr E; (destruct f as [|f]; [discriminate E|]); cbn [run_handler] in E.
   - injection E as <- <- <-. apply KS_ev, HSr.
   - destruct (await_input maxc (io_fuel w 0) (Some n) r w) as [[[[c b]|k] r1] w1|o w1] eqn:EA; [| |discriminate E];
@@ -618,19 +626,24 @@ Proof.
   - destruct (do_writeable maxc r w) as [[e r1] w1|o w1] eqn:ED; [|discriminate E].
     apply (IH _ _ _ _ _ _ (KS_ev _ _ _ (do_writeable_KS _ _ _ _ _ HSr ED)) E).
   - destruct (negb (rwriteable r)); [apply (IH _ _ _ _ _ _ (KS_ev _ _ _ HSr) E)|].
+    destruct (rlock r && negb (len (take n rest) =? 0)); [discriminate E|].   (* a writer waiting for Request.lock ends the run *)
     pose proof (writer_write_all_spec (N.to_nat (n / 65535) + 2) s (r_id (sreq (rsp r))) (take n rest) w) as S.
     destruct (writer_write_all (N.to_nat (n / 65535) + 2) s (r_id (sreq (rsp r))) (take n rest) w) as [[k|] w1|o w1];
       cbn [wspec] in S; [| |discriminate E].
     + destruct S as (_ & _ & b1 & b2 & _ & _ & HIO). pose proof (io_KS _ _ _ _ HIO HSr) as A.
       injection E as <- <- <-. apply KS_ev, A.
     + apply (IH _ _ _ _ _ _ (KS_ev _ _ _ (io_KS _ _ _ _ S HSr)) E).
-  - destruct (rwriteable r); apply (IH _ _ _ _ _ _ (KS_ev _ _ _ HSr) E).
+  - destruct (rwriteable r); [destruct (rlock r); [discriminate E|]|]; apply (IH _ _ _ _ _ _ (KS_ev _ _ _ HSr) E).
   - injection E as <- <- <-. apply KS_ev, HSr.
   - injection E as <- <- <-. apply KS_ev, HSr.
   - destruct (await_input maxc (io_fuel w 0) (Some n) r w) as [[[[c b]|k] r1] w1|o w1] eqn:EA; [| |discriminate E];
       pose proof (await_input_KS _ _ _ _ _ _ _ HSr EA) as A.
     + apply (IH _ _ _ _ _ _ (KS_ev _ _ _ (KS_ev _ _ _ A)) E).
     + injection E as <- <- <-. apply KS_ev, KS_ev, A.
+  - (* 11 n: a single poll of poll_input, not awaited: exactly one iteration of await_input *)
+    destruct (poll_input maxc (io_fuel w (len (buffer (rsp r)))) (Some n) r w) as [[p r1] w1] eqn:EP.
+    pose proof (poll_input_KS (Some n) r w p r1 w1 HSr EP) as A.
+    destruct p as [[[c b]|k]| |]; apply (IH _ _ _ _ _ _ (KS_ev _ _ _ (KS_ev _ _ _ A)) E).
 Qed.
 
 (* Request::record_boundary: a read inside the skip loop happens strictly inside a record *)
